@@ -12,17 +12,26 @@ func InitGenesis(ctx sdk.Context, k keeper.Keeper, state *types.GenesisState) {
 	var auctionID uint64
 	var lendAuctionID uint64
 
+	// surplus, debt and Dutch auctions share one id counter: restore it as the highest id still running
 	for _, item := range state.SurplusAuction {
 		k.SetGenSurplusAuction(ctx, item)
+		if item.AuctionId > auctionID {
+			auctionID = item.AuctionId
+		}
 	}
 
 	for _, item := range state.DebtAuction {
 		k.SetGenDebtAuction(ctx, item)
+		if item.AuctionId > auctionID {
+			auctionID = item.AuctionId
+		}
 	}
 
 	for _, item := range state.DutchAuction {
 		k.SetGenDutchAuction(ctx, item)
-		auctionID = item.AuctionId
+		if item.AuctionId > auctionID {
+			auctionID = item.AuctionId
+		}
 	}
 
 	k.SetAuctionID(ctx, auctionID)
@@ -36,9 +45,11 @@ func InitGenesis(ctx sdk.Context, k keeper.Keeper, state *types.GenesisState) {
 		k.SetAuctionParams(ctx, item)
 	}
 
-	for _, item := range state.DutchAuction {
+	for _, item := range state.DutchLendAuction {
 		k.SetGenLendDutchLendAuction(ctx, item)
-		lendAuctionID = item.AuctionId
+		if item.AuctionId > lendAuctionID {
+			lendAuctionID = item.AuctionId
+		}
 	}
 	k.SetLendAuctionID(ctx, lendAuctionID)
 }
